@@ -37,7 +37,7 @@ ASSUMPTIONS = [
     "'the end marker' = EI followed by a byte for which bytes.isspace() is true; inline data is written as ID<space>data<LF>EI<LF> and does not end in CR",
     "export formats limited to those that do not need Pillow (DCT pass-through, 1-bit / 8-bit gray / 8-bit RGB bitmaps)",
 ]
-PROBES = ["samples begin with a magic number", "run under settings.STRICT", "page with shifted MediaBox or /Rotate", "one ImageWriter for two documents", "ASCII85 inline data contains EI + white space", "two inline images with the same data bytes", "dct data continues behind the EOI marker", "CR after ID and data starting with LF", "dct behind further filters", "same XObject drawn twice", "inline image ending at the ASCII85 marker", "inline image", "xobject image", "gray8", "rgb8", "1bit", "dct", "filter chain", "unfiltered", "row padding needed", "boundary placed in inline markers", "contents split after image", "inline data contains EI", "preexisting export name", "two images same name", "bmp exported", "jpg exported"]
+PROBES = ["stencil mask", "samples begin with a magic number", "run under settings.STRICT", "page with shifted MediaBox or /Rotate", "one ImageWriter for two documents", "ASCII85 inline data contains EI + white space", "two inline images with the same data bytes", "dct data continues behind the EOI marker", "CR after ID and data starting with LF", "dct behind further filters", "same XObject drawn twice", "inline image ending at the ASCII85 marker", "inline image", "xobject image", "gray8", "rgb8", "1bit", "dct", "filter chain", "unfiltered", "row padding needed", "boundary placed in inline markers", "contents split after image", "inline data contains EI", "preexisting export name", "two images same name", "bmp exported", "jpg exported"]
 TIERS = {
     "quick": {"batches": 16, "runs": 450, "budget_s": 50},
     "thorough": {"batches": 128, "runs": 500, "budget_s": 1200},
@@ -121,6 +121,9 @@ def gen_image(t, ctx, idx):
         ctx.probe("filter chain" if chain else "unfiltered")
     if bits in (1, 8) and kind != "dct" and (rowlen % 4):
         ctx.probe("row padding needed")
+    if kind == "1bit" and t.coin(35, 100, "img.mask"):
+        ctx.probe("stencil mask")
+        return {"mask": True, "kind": kind, "w": w, "h": h, "bits": bits, "cs": cs, "inline": inline, "samples": samples, "chain": chain, "data": data, "rowlen": rowlen}
     return {"kind": kind, "w": w, "h": h, "bits": bits, "cs": cs, "inline": inline, "samples": samples, "chain": chain, "data": data, "rowlen": rowlen}
 
 
@@ -174,7 +177,12 @@ def build_document(t, ctx, images, page_of, with_images=True, geom=(0, 0, 0)):
         elif im["inline"]:
             abbr = t.coin(60, 100, "inl.abbr")
             d = b"/W %d /H %d /BPC %d " % (im["w"], im["h"], im["bits"]) if abbr else b"/Width %d /Height %d /BitsPerComponent %d " % (im["w"], im["h"], im["bits"])
-            d += (b"/CS /" + ABBR_CS[im["cs"]].encode() if abbr else b"/ColorSpace /" + im["cs"].encode()) + b" "
+            if im.get("mask"):
+                d += (b"/IM true " if abbr else b"/ImageMask true ")  # a stencil mask has no colour space
+            else:
+                # key and value are abbreviated independently of one another
+                vabbr = abbr if t.coin(70, 100, "inl.csvalue") else not abbr
+                d += (b"/CS /" if abbr else b"/ColorSpace /") + (ABBR_CS[im["cs"]] if vabbr else im["cs"]).encode() + b" "
             if im["chain"]:
                 fl = b" ".join(b"/" + (ABBR_F[f] if abbr else f).encode() for f in im["chain"])
                 d += (b"/F " if abbr else b"/Filter ") + (b"[" + fl + b"]" if len(im["chain"]) > 1 or t.coin(30, 100, "inl.farr") else fl) + b" "
@@ -195,6 +203,9 @@ def build_document(t, ctx, images, page_of, with_images=True, geom=(0, 0, 0)):
             if nm in xobjs[pg]:
                 nm = nm + b"%d" % i
             d = {b"Type": Name(b"XObject"), b"Subtype": Name(b"Image"), b"Width": im["w"], b"Height": im["h"], b"BitsPerComponent": im["bits"], b"ColorSpace": Name(im["cs"].encode())}
+            if im.get("mask"):
+                del d[b"ColorSpace"]
+                d[b"ImageMask"] = True
             if im["chain"]:
                 fl = [Name(f.encode()) for f in im["chain"]]
                 d[b"Filter"] = fl[0] if len(fl) == 1 and t.coin(60, 100, "x.fsingle") else fl
@@ -426,7 +437,7 @@ def run_inner(tape, ctx, item=None):
                 if tuple(lt.srcsize) != (im["w"], im["h"]) or lt.bits != im["bits"]:
                     devs.append(Dev("C18:%s:geometry" % tag, "image %d: srcsize %r bits %r, stored %dx%d/%d; %s" % (i, lt.srcsize, lt.bits, im["w"], im["h"], im["bits"], cfg)))
                 csn = [getattr(c, "name", c) for c in lt.colorspace]
-                if csn not in ([im["cs"]], [ABBR_CS[im["cs"]]]):
+                if csn not in (([im["cs"]], [ABBR_CS[im["cs"]]]) if not im.get("mask") else ([None],)):
                     devs.append(Dev("C18:%s:colorspace" % tag, "image %d: colorspace %r, stored %s; %s" % (i, lt.colorspace, im["cs"], cfg)))
         glyphs = [(c.get_text(), tuple(c.matrix)) for p_ in pages for c in items_of(p_, L.LTChar)]
         if glyphs_ref is not None and glyphs != glyphs_ref:
